@@ -12,19 +12,50 @@ SPEC = dict(
          'Append sizes and formatted-output lengths are steered to spare-2 .. spare+2 of the current capacity (the two-pass vsnprintf path). After EVERY '
          'call: length, length <= capacity, all bytes vs a byte-vector model; after terminating variants NUL directly behind the content inside the '
          'capacity; formatted append return value and bytes == snprintf for the same format and arguments; comparison sign == bytewise lexicographic '
-         'then length. distinct_nontrivial = distinct (operation, spare-capacity class {<need, =need, =need+1, >need+1}, terminated-before?) combinations.',
+         'then length. distinct_nontrivial = distinct (operation, spare-capacity class {<need, =need, =need+1, >need+1}, terminated-before?) combinations '
+         'plus, for the large class, distinct (operation, floor(log2(length))) pairs at which the complete state was compared. '
+         'LARGE class (case numbers = 40 mod 41 in quick: 146 cases; = 330 mod 331 in thorough: 4531 cases; 9 scenarios in rotation; kmax = 16 quick / 20 thorough): '
+         'lengths are driven through 2^k-2..2^k+2 for every k <= kmax (65534..65538 bytes quick, 1048574..1048578 thorough) (a) by single-byte calls '
+         '(catc/catc_/catn(1)/catn_(1)/cats(1)/a_utf_catc, from empty to > 65545 in both tiers, single-byte windows 2^k-6..2^k+6 for k = 17..20 in thorough, '
+         'five single pops back over each boundary), (b) by blocks through catn/catn_/cats/cats_/cat/cat_ (one block of 2^16+-2 bytes into a fresh object, blocks of ~2^(k-1)), '
+         '(c) by ONE catf/catv call each ("%*s", "%-*s", "%s", "%.*s", "[%s|%s]", "%0*d", "%x|%s|%c" with long arguments/widths; outputs > 4096 and > 65536 bytes, up to 2^kmax bytes; '
+         'against a reserved spare capacity at spare-2..spare+2 = one-pass vs two-pass vsnprintf, into a null-storage object and into an exactly full object); '
+         'setn shrink/re-grow inside the capacity, setn(mem), setn(mem+1), setn_, setm, setm_ exact fit (len == mem) followed by a call that must make room; '
+         'six trim entry points on strings with leading/trailing runs of 2^k+-1 set members (up to 2^kmax) around cores of up to 2^kmax bytes; '
+         'getn/getn_ chunks landing on every 2^k+d going down, then getc/getc_/getn(1) pops from > 65536 to empty; swap long<->short then appends to both; '
+         'exit of long strings (terminated / unterminated with spare / exactly full) + immediate re-use; cmp/cmpn/cmps/cmp_ of strings of 2^k-1..2^k+1 bytes that are equal, '
+         'differ only in the last byte (also across 0x7F/0x80), only in length (+-1 byte, the extra byte NUL half of the time), or in one inner byte. '
+         'Judged: a heap byte-array model against length, length <= capacity, EVERY byte and the terminator after every structural call and at 2^k-2..2^k+2 inside single-byte runs '
+         '(in between every call O(1): return value, length, capacity, terminator, last 16 bytes); popped bytes into exact-size pre-scrambled buffers; formatted append vs snprintf '
+         'with the same format and arguments. During a large case the public a_alloc hook points at a wrapper of the default a_alloc_ that fills every grown region with 0xA5 '
+         '(fresh pages are zero and ASan pattern-fills only 4096 bytes, so a missing terminator at a large offset would otherwise pass by luck).',
     exhaustive={},
     require=['state-compared-with-model', 'terminator-after-content-inside-capacity', 'formatted-append-equals-libc-formatter',
              'utf_catc-appends-encoding-plus-nul', 'getc-returns-last-byte', 'getn-returns-tail-bytes',
              'trim-removes-exactly-the-set-members-at-the-ends', 'setn-bounds', 'setm-capacity', 'swap',
-             'exit-hands-over-terminated-content', 'cmp-orders-like-bytewise-lexicographic-then-length', 'accessors', 'ctor-dtor-on-caller-storage'],
+             'exit-hands-over-terminated-content', 'cmp-orders-like-bytewise-lexicographic-then-length', 'accessors', 'ctor-dtor-on-caller-storage',
+             # large-size / long-history class
+             'large-cases-run', 'large-full-state-compared', 'large-step-checked', 'large-state-compared-at-len-ge-65536',
+             'large-alloc-grown-region-junk-filled',
+             'large-pow2-window-length-visited-by-single-appends', 'large-pow2-boundary-crossed-downward-by-single-pops',
+             'large-pow2-window-length-reached-by-block', 'large-block-append-ge-65536',
+             'large-pow2-window-length-reached-by-formatted-append', 'large-formatted-append-over-4096', 'large-formatted-append-over-65536',
+             'large-formatted-one-pass-over-4096', 'large-formatted-two-pass-over-4096', 'large-formatted-append-into-exactly-full-object',
+             'large-setn-regrow-over-4096', 'large-setm-exact-fit-judged', 'large-exactly-full-at-len-ge-4096',
+             'large-trim-run-ge-65536', 'large-trim-moves-over-4096-bytes-to-the-front', 'large-trim-empties-long-string',
+             'large-getn-chunk-ge-65536', 'large-pow2-window-length-reached-by-pop', 'large-pow2-window-length-visited-by-single-pops',
+             'large-swap-long-with-short', 'large-exit-of-len-ge-4096', 'large-exit-exactly-full-len-ge-4096',
+             'large-cmp-long-differing-only-in-last-byte', 'large-cmp-long-differing-only-in-length', 'large-cmp-differing-only-in-a-byte-at-index-ge-65536'],
     cov_files=['str.c'], cov_cases=600,
     assumptions=_COMMON + ['libc snprintf is the oracle for formatted append (the property says "what the C formatter produces")',
                            'a_str_setm_ is only called with mem >= length; a_str_setn_ only with num < mem (documented preconditions)',
-                           'whitespace for the empty trim set is the C-locale isspace set'],
+                           'whitespace for the empty trim set is the C-locale isspace set',
+                           'large class: storage obtained through the a_alloc hook may hold arbitrary bytes (the harness fills grown regions with 0xA5); '
+                           'lengths stay below ~2^18 bytes in quick and ~2^21 bytes in thorough; one formatted append produces at most ~2^20 bytes (the int range of the formatter result is never approached)'],
     level_text='Byte-vector reference model compared after every call over seeded histories whose append sizes are steered onto the capacity boundary, with '
-               'every string buffer an exact-size malloc block under ASan (1-byte overruns are red-zone hits). Histories are unbounded; seeded sampling '
-               'with boundary targeting is the reachable level.',
+               'every string buffer an exact-size malloc block under ASan (1-byte overruns are red-zone hits). A second case class repeats the comparison at lengths through every '
+               'power of two up to 2^16 (quick) / 2^20 (thorough) with a heap model, dense complete-state checkpoints at 2^k-2..2^k+2 and junk-filled fresh storage. '
+               'Histories are unbounded; seeded sampling with boundary targeting is the reachable level.',
     level_note='trusted: harness byte model, libc snprintf; a_utf_encode (judged separately by C18) provides the expected bytes of a_utf_catc',
     technique='seeded operation histories against a byte-vector model, libc formatter oracle, ASan red zones at the capacity boundary',
 )
